@@ -70,7 +70,7 @@ def _func_extent(lines, header):
     return None
 
 
-def _find(lines, lo, hi, match, nth, prefix):
+def _find(lines, lo, hi, match, nth, prefix, contains=False):
     """index (absolute) of the first line of the nth occurrence of the consecutive stripped lines `match` in [lo, hi]."""
     seen = 0
     k = len(match)
@@ -78,7 +78,7 @@ def _find(lines, lo, hi, match, nth, prefix):
         ok = True
         for d in range(k):
             s = lines[i + d].strip()
-            if (s.startswith(match[d]) if prefix else s == match[d]):
+            if (match[d] in s and not s.startswith("//")) if contains else (s.startswith(match[d]) if prefix else s == match[d]):
                 continue
             ok = False
             break
@@ -155,7 +155,7 @@ def instrument(table_path, workdir, repo):
                     out["missing"].append(dict(id=e["id"], label=e["label"], file=rel, why="function %r not found" % e["func"]))
                 continue
             lo, hi = ext
-            i = _find(lines, lo, hi, e["match"], int(e.get("nth", 1)), bool(e.get("prefix")))
+            i = _find(lines, lo, hi, e["match"], int(e.get("nth", 1)), bool(e.get("prefix")), bool(e.get("contains")))
             if i is None:
                 if not e.get("sentinel"):
                     out["missing"].append(dict(id=e["id"], label=e["label"], file=rel, why="anchor %r not found in %s" % (e["match"], e["func"])))
@@ -165,6 +165,7 @@ def instrument(table_path, workdir, repo):
                 if _held_at(lines, lo, a, e["sentinel"]["open"], e["sentinel"]["close"]):
                     continue
                 out["sentinels"].append(e["id"])
+                out.setdefault("sentinel_concerns", {})[e["id"]] = e["sentinel"].get("concerns") or []
             where = e["where"]
             ind = _indent(lines[a])
             if where == "after" and (lines[a].rstrip().endswith("{") or lines[a].rstrip().endswith(":")):
